@@ -42,7 +42,13 @@ impl<'a> Walk<'a> {
                 self.cell(*e);
             }
             VCell::Lambda(l) => {
-                for b in &l.bc {
+                // operands are references, except the operand of a jump: that is an offset into this bytecode
+                let mut it = l.bc.iter();
+                while let Some(b) = it.next() {
+                    if matches!(b, VCell::OpCode(marwood::vm::opcode::OpCode::Jmp | marwood::vm::opcode::OpCode::Jnt)) {
+                        it.next();
+                        continue;
+                    }
                     self.vcell(b);
                 }
                 for a in &l.args {
